@@ -138,6 +138,7 @@ def check_listing(ctx, st, s, cmd, times, t0, case):
         by_text.setdefault(e['gt_text'], []).append(i)
     last = -1
     prev = None
+    prev_amb = False
     pending = None
     for it in items[1:]:
         if it['kind'] == 'sep':
@@ -156,7 +157,7 @@ def check_listing(ctx, st, s, cmd, times, t0, case):
             if prev is not None:
                 gap = times[idx] - prev
                 near = abs(gap - ONE_S) <= 500
-                if ambiguous and near:
+                if (ambiguous or prev_amb) and near:
                     ctx.count('listing_ambiguous_skipped')
                 elif gap > ONE_S and pending is None:
                     ctx.violation('separator-missing', 'listing %r: gap %d us before %r without separator' % (cmd, gap, it['text'][:80]), case, gap_us=gap)
@@ -171,6 +172,7 @@ def check_listing(ctx, st, s, cmd, times, t0, case):
                 ctx.violation('separator-first', 'listing %r: separator before the first listed message' % cmd, case)
                 return
             prev = times[idx]
+            prev_amb = ambiguous
             last = idx
             pending = None
         elif it['kind'] in ('count', 'none_of', 'no_messages'):
